@@ -77,21 +77,23 @@ def write_fasta(path):
 
 
 # ------------------------------------------------------------------------------------------------ shapes
-SHAPES_QUICK = ('single', 'full', 'split', 'gap', 'dove1', 'evert', 'indel', 'skipN', 'clip3', 'sindel')
-SHAPES_THOROUGH = ('single', 'full', 'split', 'gap', 'dove1', 'dove2', 'evert', 'indel', 'skipN', 'clip3', 'sindel')
+SHAPES_QUICK = ('single', 'full', 'split', 'gap', 'dove1', 'evert', 'tandem', 'indel', 'skipN', 'clip3', 'sindel')
+SHAPES_THOROUGH = ('single', 'full', 'split', 'gap', 'dove1', 'dove2', 'evert', 'tandem', 'indel', 'skipN', 'clip3',
+                   'sindel')
 # shapes added by the audit wave: the quick tier runs them on windows up to this length only
-SHAPES_THIN = ('evert', 'indel', 'skipN', 'clip3', 'sindel')
+SHAPES_THIN = ('evert', 'tandem', 'indel', 'skipN', 'clip3', 'sindel')
+UNORIENTED_SHAPES = ('tandem',)          # mates on the same strand: the statement's safe span is not defined
 SINGLE_SHAPES = ('single', 'sindel')
 
 
 def shape_layout(shape, L):
     """Layout of a FORWARD fragment over a window of length L in window offsets:
-    (r1, r2) with r = dict(a, b, ins, dele, skip, clip3, clip5) or None; None when the shape does not fit.
+    (r1, r2) with r = dict(a, b, ins, dele, skip, clip3, clip5, same) or None; None when the shape does not fit.
     ins=k : one extra query base is inserted after k aligned bases;  dele=k : window offset k is deleted (CIGAR D);
     skip=k : window offset k is skipped (CIGAR N, a spliced read);  clip3 / clip5 : extra soft-clipped bases at the
-    3' / 5' end of the read."""
-    def iv(a, b, ins=None, dele=None, skip=None, clip3='', clip5=''):
-        return {'a': a, 'b': b, 'ins': ins, 'dele': dele, 'skip': skip, 'clip3': clip3, 'clip5': clip5}
+    3' / 5' end of the read;  same : the mate maps to the strand of R1."""
+    def iv(a, b, ins=None, dele=None, skip=None, clip3='', clip5='', same=False):
+        return {'a': a, 'b': b, 'ins': ins, 'dele': dele, 'skip': skip, 'clip3': clip3, 'clip5': clip5, 'same': same}
     if shape == 'single':
         return iv(0, L), None
     if shape == 'full':
@@ -116,6 +118,10 @@ def shape_layout(shape, L):
         if L < 2:
             return None
         return iv((L + 1) // 2, L), iv(0, L // 2)
+    if shape == 'tandem':                  # improper pair: R2 maps to the same strand as R1
+        if L < 2:
+            return None
+        return iv(0, (L + 1) // 2), iv(L // 2, L, same=True)
     if shape == 'indel':
         if L < 3:
             return None
@@ -168,7 +174,7 @@ def convertible_offsets(refwin):
     return [i for i, b in enumerate(refwin) if b.upper() in 'CG']
 
 
-def window_cases(contig, seq, start, L, shapes, unsafe_single=True):
+def window_cases(contig, seq, start, L, shapes, unsafe_single=True, unsafe_pairs=False):
     """all cases on one window (without class / strand / convention, which the caller multiplies in)"""
     refwin = seq[start:start + L]
     conv_off = convertible_offsets(refwin)
@@ -178,26 +184,71 @@ def window_cases(contig, seq, start, L, shapes, unsafe_single=True):
     for shape in shapes:
         if shape_layout(shape, L) is None:
             continue
-        for unsafe in ((False, True) if (shape == 'single' and unsafe_single) else (False,)):
+        if shape in SINGLE_SHAPES:
+            modes = (False, True) if unsafe_single else (False,)
+        else:
+            modes = (False, True) if unsafe_pairs else (False,)
+        for unsafe in modes:
             for sub in subsets:
                 yield {'contig': contig, 'start': start, 'len': L, 'shape': shape, 'unsafe': unsafe,
                        'conv': list(sub), 'sub': None}
-            if shape == 'full':
+            if shape == 'full' and not unsafe:
                 for o in conv_off:
                     for b in (CROSS[refwin[o].upper()], 'N'):
                         yield {'contig': contig, 'start': start, 'len': L, 'shape': shape, 'unsafe': unsafe,
                                'conv': [], 'sub': [o, b]}
 
 
+# ---- the vote family: ONE convertible position of the window is shown differently by a mate / by further fragments
+Q_HI, Q_LO = 40, 30                          # phred of R1 / R2 in every other family ('I' / '?')
+VOTE_SHAPES = ('full', 'split', 'dove1', 'single')
+MATE_QUALS = ([Q_HI, Q_LO], [Q_LO, Q_HI], [Q_LO, Q_LO])
+MIN_PHREDS = (Q_LO, Q_LO + 1, Q_HI + 1)      # keeps both mates (boundary: equal counts) / R1 only / nothing
+# what the further fragments of the molecule show at the position, relative to the first fragment
+COPY_PATTERNS = (('opp',), ('same',), ('N',), ('opp', 'opp'), ('opp', 'same'), ('same', 'opp'), ('opp', 'cross'),
+                 ('opp', 'N'), ('opp', 'opp', 'same'))
+
+
+def vote_cases(contig, seq, start, L, shapes=VOTE_SHAPES):
+    """For every convertible offset o of the window and both things the first fragment can show there
+    (reference base / conversion):
+      mate    - R2 shows the opposite / a non-conversion substitution / N at o  x  mate qualities R1>R2, R1<R2, equal
+      minq    - methylation_consensus_kwargs={'min_phred_score': q} for q keeping both mates (q equal to the lower
+                quality), R1 only, nothing
+      copies  - 1..3 further fragments of the same layout showing the same / the opposite / a third base / N at o
+    Single-end fragments are generated with allow_unsafe_base_calls=True only (nothing can be demanded otherwise)."""
+    refwin = seq[start:start + L]
+    for shape in shapes:
+        if shape_layout(shape, L) is None:
+            continue
+        single = shape in SINGLE_SHAPES
+        for o in convertible_offsets(refwin):
+            b = refwin[o].upper()
+            for shows_conv in (False, True):
+                base = {'contig': contig, 'start': start, 'len': L, 'shape': shape, 'unsafe': single,
+                        'conv': [o] if shows_conv else [], 'sub': None}
+                alt = {'opp': b if shows_conv else CONV[b], 'same': CONV[b] if shows_conv else b,
+                       'cross': CROSS[b], 'N': 'N'}
+                if not single:
+                    for other in ('opp', 'cross', 'N'):
+                        for quals in MATE_QUALS:
+                            yield dict(base, r2sub=[o, alt[other]], quals=list(quals))
+                for q in MIN_PHREDS:
+                    yield dict(base, minq=q)
+                for pat in COPY_PATTERNS:
+                    yield dict(base, extra=[[o, alt[k]] for k in pat])
+
+
 def molecule_sequence(refwin, conv, sub):
-    """what the sequenced molecule shows over the window (upper case; an 'A' is read where the reference has N)"""
+    """what the sequenced molecule shows over the window (upper case; an 'A' is read where the reference has a
+    letter other than ACGT)"""
     out = []
     for i, b in enumerate(refwin.upper()):
         if sub is not None and sub[0] == i:
             out.append(sub[1])
         elif i in conv:
             out.append(CONV[b])
-        elif b == 'N':
+        elif b not in 'ACGT':
             out.append('A')
         else:
             out.append(b)
@@ -234,11 +285,12 @@ def md_tag(ref_aln, query_aln):
 
 
 def read_spec(refwin, molseq, start, r, reverse, clip5):
-    """Turn one layout entry into (query, cigar, pos, md, aligned_ref_positions).
+    """Turn one layout entry into (query, cigar, pos, md, aligned_ref_positions, aligned bases).
     clip5: bases soft-clipped at the 5' end OF THE READ (left for forward, right for reverse reads)."""
     a, b = r['a'], r['b']
     ref_aln, q_aln, cig = [], [], []
     positions = []
+    aligned = []
 
     def push(op, n=1):
         if cig and cig[-1][0] == op:
@@ -259,51 +311,81 @@ def read_spec(refwin, molseq, start, r, reverse, clip5):
             q_aln.append('-')
             push('D')
             continue
+        if r.get('skip') is not None and o == r['skip']:
+            push('N')                       # a skipped reference base appears neither in the query nor in MD
+            continue
         ref_aln.append(refwin[o])
         q_aln.append(molseq[o])
         push('M')
         positions.append(start + o)
+        aligned.append(molseq[o])
         n_aligned += 1
     query = ''.join(c for c in q_aln if c != '-')
-    if clip5:
-        if reverse:
-            query = query + clip5
-            cig.append(['S', len(clip5)])
-        else:
-            query = clip5 + query
-            cig.insert(0, ['S', len(clip5)])
+    clip5 = clip5 + r.get('clip5', '')
+    clip3 = r.get('clip3', '')
+    left, right = (clip3, clip5) if reverse else (clip5, clip3)
+    if left:
+        query = left + query
+        cig.insert(0, ['S', len(left)])
+    if right:
+        query = query + right
+        cig.append(['S', len(right)])
     cigar = ''.join(f'{n}{op}' for op, n in cig)
     return {'query': query, 'cigar': cigar, 'pos': start + a, 'md': md_tag(''.join(ref_aln), ''.join(q_aln)),
-            'positions': positions, 'reverse': reverse}
+            'positions': positions, 'aligned': ''.join(aligned), 'reverse': reverse}
+
+
+NLA_CLASSES = ('nla', 'nla_annot', 'nla_ptag')
 
 
 def build_reads(hdr, case, seq):
-    """-> (reads [R1, R2|None], specs [spec1, spec2|None]) for a case (needs cls, strand on top of window_cases)"""
+    """-> (fragments [[R1, R2|None], ...], specs [[spec1, spec2|None], ...], what the first fragment shows)
+    for a case (needs cls, strand on top of window_cases / vote_cases).  Optional keys of the case:
+      quals  [q1, q2]  phred of every base of R1 / R2 (default 40 / 30)
+      r2sub  [o, b]    R2 of the first fragment shows b at window offset o (mate disagreement)
+      extra  [[o, b] | None, ...]  further fragments of the same layout which show b at offset o"""
     start, L = case['start'], case['len']
     refwin = seq[start:start + L]
     molseq = molecule_sequence(refwin, set(case['conv']), case['sub'])
     lay = layout_for(case['shape'], L, case['strand'])
     r1_rev = case['strand'] == '-'
-    clip = 'CATG' if case['cls'] == 'nla' else ''
-    s1 = read_spec(refwin, molseq, start, lay[0], r1_rev, clip)
-    s2 = read_spec(refwin, molseq, start, lay[1], not r1_rev, '') if lay[1] is not None else None
-    reads = []
-    for i, s in enumerate((s1, s2)):
-        if s is None:
-            reads.append(None)
-            continue
-        other = (s1, s2)[1 - i]
-        mate = (case['contig'], other['pos'], other['reverse'], False) if other is not None else None
-        tags = {'SM': 'LIB_1', 'RX': 'ACG', 'BC': 'AAAA', 'bi': 1, 'MQ': 60, 'MD': s['md']}
-        if case['cls'] == 'chic':
-            tags.update({'lh': 'TA', 'MX': 'scCHIC384C8U3'})
-        else:
-            tags.update({'lh': 'TG'})
-        qual = ('I' if i == 0 else '?') * len(s['query'])
-        reads.append(make_read(hdr, 'frag', s['query'], case['contig'], s['pos'], s['cigar'], reverse=s['reverse'],
-                               read1=(i == 0), paired=True if other is not None else False, mate=mate, qual=qual,
-                               tags=tags, proper=True))
-    return reads, [s1, s2], molseq
+    clip = 'CATG' if case['cls'] in NLA_CLASSES else ''
+    quals = case.get('quals') or [Q_HI, Q_LO]
+
+    def shown(sub):
+        if sub is None:
+            return molseq
+        return molseq[:sub[0]] + sub[1] + molseq[sub[0] + 1:]
+
+    shows = [(molseq, shown(case.get('r2sub')))]
+    for e in case.get('extra') or []:
+        shows.append((shown(e), shown(e)))
+    frags, specs = [], []
+    for fi, (show1, show2) in enumerate(shows):
+        s1 = read_spec(refwin, show1, start, lay[0], r1_rev, clip)
+        s2 = (read_spec(refwin, show2, start, lay[1], r1_rev if lay[1].get('same') else not r1_rev, '')
+              if lay[1] is not None else None)
+        reads = []
+        for i, s in enumerate((s1, s2)):
+            if s is None:
+                reads.append(None)
+                continue
+            s['qual'] = quals[i]
+            other = (s1, s2)[1 - i]
+            mate = (case['contig'], other['pos'], other['reverse'], False) if other is not None else None
+            tags = {'SM': 'LIB_1', 'RX': 'ACG', 'BC': 'AAAA', 'bi': 1, 'MQ': 60, 'MD': s['md']}
+            if case['cls'] in NLA_CLASSES:
+                tags.update({'lh': 'TG'})
+            else:
+                tags.update({'lh': 'TA', 'MX': 'scCHIC384C8U3'})
+            qual = chr(33 + quals[i]) * len(s['query'])
+            reads.append(make_read(hdr, 'frag' if fi == 0 else f'frag{fi}', s['query'], case['contig'], s['pos'],
+                                   s['cigar'], reverse=s['reverse'], read1=(i == 0),
+                                   paired=True if other is not None else False, mate=mate, qual=qual,
+                                   tags=tags, proper=True))
+        frags.append(reads)
+        specs.append([s1, s2])
+    return frags, specs, molseq
 
 
 def make_header():
